@@ -295,7 +295,8 @@ func (f *fragmentList) build(in *layers.IPv4) (*layers.IPv4, error) {
 				return nil, errors.New("defrag: building - invalid fragment")
 			}
 			final = append(final, frag.Payload[startAt:]...)
-			currentOffset = currentOffset + frag.FragOffset*8
+			// the datagram now extends to the end of this fragment
+			currentOffset = frag.FragOffset*8 + frag.Length - uint16(frag.IHL)*4
 		} else {
 			// Houston - we have an hole !
 			debug.Printf("defrag: hole found while building, " +
